@@ -29,18 +29,18 @@ type Extent struct {
 
 // Record is one decoded directory record.
 type Record struct {
-	Pos       int64 // absolute byte position in the image
-	Len       int
-	ExtLBA    uint32
-	DataLen   uint32
-	Flags     byte
-	UnitSize  byte
-	Gap       byte
-	VolSeq    uint16
-	RawName   []byte
-	BothOK    bool // LE == BE for extent, length, volseq
-	NameFits  bool
-	Date      [7]byte
+	Pos      int64 // absolute byte position in the image
+	Len      int
+	ExtLBA   uint32
+	DataLen  uint32
+	Flags    byte
+	UnitSize byte
+	Gap      byte
+	VolSeq   uint16
+	RawName  []byte
+	BothOK   bool // LE == BE for extent, length, volseq
+	NameFits bool
+	Date     [7]byte
 }
 
 func (r Record) IsDir() bool { return r.Flags&0x02 != 0 }
